@@ -145,3 +145,24 @@ CHECKS["C16"] = {
     "assumptions": PROG_ASSUME + ["snapshots are taken twice at copy time so that lazily cached representation changes settle before comparison"],
     "min_nontrivial_frac": 0.05,
 }
+
+EXACT_V = ["itv", "sdbm", "dbm", "soct", "lift"]
+CHECKS["C12"] = {
+    "jobs": [job("h_exact-" + v, 1500, 2, 20000, 3, fuzz_secs=0) for v in EXACT_V],
+    "rule": "part A (model based): histories of 1-16 steps over 4 abstract values and <=4 variables inside the box [-B,B]^n (B<=4, optionally shifted by "
+            "per-variable offsets up to 2^40 to exercise large constants): assume of 1-3 constraints of the domain's own language (+-x<=k; x-y<=k for "
+            "zones; +-x+-y<=k for octagons; several syntactic forms, == included), join, meet, forget/project, copy, normalize/minimize, for "
+            "interval_domain, split_dbm (graph representations ss/adapt_ss/pt/ht x weights int64/safe_i64/z_number x all zones parameters), sparse_dbm, "
+            "split_oct (all oct parameters). The model of a value is the exact set of integer points of the box plus the set of unconstrained "
+            "variables (join = best abstraction of the union in the language, by brute force). After every step: is_bottom <=> no point; at(v) = exact "
+            "[min,max]; entails(c) <=> every point satisfies c for EVERY constraint c of the language with constant in range (sampled per shape when "
+            "the budget of 1500 queries is used up); join above both operands and below every pool value above both; meet dually; <= never yes when a "
+            "point of the left is outside the right. Part B (differential): straight-line numerical histories on a base domain and on its "
+            "boolean/array-smashing/array-adaptive/region liftings and reduced product: lifted.at(v) <= base.at(v) after every step. non-trivial = >= 3 "
+            "constraints over >= 2 variables, a satisfiable bounded result and some tight bound that is not syntactically present (closure needed); "
+            "distinct = hash of the decoded history",
+    "assumptions": ["integer points only inside the box: every constrained variable is also boxed, so the brute-force model is exact",
+                    "completeness of operator<= (answering no although included) is only counted as a diagnostic: C12 states join-above/join-least, not a complete inclusion test",
+                    "an octagon answer that needs integer tightening beyond the rational closure is classified under a separate tag (<mode>_..._tightening)"],
+    "min_nontrivial_frac": 0.1,
+}
